@@ -25,6 +25,8 @@ def load(seeded: bool):
     idx = HERE / "mutants" / "index.json"
     if idx.exists() and not seeded:
         for m in json.loads(idx.read_text()):
+            if m.get("obsolete"):
+                continue  # made harmless by a later repair (reason in index.json)
             items.append((m["name"], HERE / "mutants" / m["patch"], m["expect"], m.get("note", "")))
     if seeded:
         for d in sorted((HERE / "seeded").glob("*/")):
